@@ -23,6 +23,12 @@ address parameter, BitCast between pointer types; IntegralToPointer is refused),
 `goto L;` to a label of an enclosing block (the path continues with the statements after the label), lock / unlock calls
 that open and close a critical section (cfg "lock": guarded cells may only be touched inside), enum constants through a name
 map (cfg "enums").
+Also (added for the bump allocators Glu_alloc / DynamicSetMap of pmemory.c): object paths through pointers (cfg "roots":
+`pxgstrf_shared->Glu->nextu`, also through pointer locals initialised from such a path: `Glu = pxgstrf_shared->Glu; .. Glu->nextu`)
+with mutable scalar cells (cfg "pcells") and mutable integer arrays (cfg "parrays": a value `Z -> Z`, a store is `zupd` of
+coq/C2GalLib.v) reached through them; `switch` over integer / enum constants with `case` groups, `default`, fall-through and
+`break` (every entry point carries its own copy of the rest of the path); calls that never return (cfg "abort_calls") end their
+path with cfg["on_abort"]; indexed lock objects (cfg "lock" with "object_path" and a guards MAP cell -> lock index).
 Everything else stops the translation with an error (reported by the check as a broken translator), never silently skipped.
 The clang AST is built without -DSLU_MT_VERIF (CLANG_FLAGS): the SLU_VERIF_EV hook statements are null statements.
 
@@ -148,7 +154,23 @@ class Tr:
                                                          acquire / release calls (argument `&g.f` when object is given) open / close a
                                                          critical section; a guarded cell read or written outside one stops the translation;
                                                          env["#lock"] is present while the lock is held (on_return / final can refuse it)
-         dup_ifs  True: every if duplicates the rest of the path into its branches (decision tree, no joins)"""
+         dup_ifs  True: every if duplicates the rest of the path into its branches (decision tree, no joins)
+         roots    set of pointer PARAMETERS from which object paths start: `p->f->g` is the path "p->f->g"; a pointer local that is
+                  initialised / assigned from a path expression is an alias of that path on the rest of its control path
+                  (env[local] = (path, 'O')); no `let` is emitted for it and it can not be joined over an if / a loop
+         pcells   set of paths that are mutable scalar cells ("p->Glu->nextu"): start value in inputs[path], final value in env[path]
+         parrays  set of paths that are mutable integer arrays ("p->Glu->map_in_sup"): the value (inputs[path] = (name, 'F')) is a
+                  Gallina function Z -> Z;  a[i] reads `(a i)`;  a[i] = e / a[i] += e  give  `zupd a i e'`;  the pointer field itself
+                  can not be assigned (it is not a cell)
+         abort_calls  set of callees that never return (superlu_abort_and_exit, exit, abort): a call statement ends its path
+                  with cfg["on_abort"](tr, env) (locks may be held there: the process is gone)
+         lock     (indexed form) {"acquire", "release", "object_path": path of the lock array, "guards": {cell: lock index name}}
+                  the call argument must be `&<object_path>[<enum constant or integer literal>]`; env["#lock[<index>]"] is present
+                  while that lock is held; a guarded cell may only be touched while ITS lock is held; taking a lock while any
+                  lock is held is refused (no lock order is modelled); see held()
+       switch:    `switch (e) { case A: case B: s..; break; default: ..}` becomes an if-chain over (e =? A) || (e =? B) with one copy of
+                  the rest of the path per entry point; fall-through runs on into the next statements; `break` inside nested ifs is
+                  a jump to the end of the switch; case labels inside nested statements and `break` in for-loops are refused"""
 
     def __init__(self, cfg):
         self.cfg = cfg
@@ -159,9 +181,11 @@ class Tr:
         self.lets = {}          # gallina name of every let-bound / loop-bound variable -> type
         self.labels = {}      # label declId -> continuation (env -> term) of the statements from the label on
         self.gorder = {}       # node id of GotoStmt / LabelStmt -> position in a preorder walk (forward gotos only)
+        self.brk = None        # continuation of `break` (the end of the innermost switch) or None
 
     def fresh(self, v, ty="Z"):
         self.n += 1
+        v = "_".join(v.replace("*", "").replace(".", "_").split("->")[-2:])
         nm = "%s_%d" % (v, self.n)
         self.lets[nm] = ty
         return nm
@@ -176,20 +200,63 @@ class Tr:
     # ------------------------------------------------------------------ expressions
     def toB(self, et):
         e, t = et
+        if t in ("F", "O"):
+            raise Unsupported("an array / a pointer into an object used as a truth value")
         if t == "P":
             return "(negb (peqb %s pnull))" % e
         return e if t == "B" else "(negb (%s =? 0))" % e
 
     def toZ(self, et):
         e, t = et
-        if t == "P":
+        if t in ("P", "F", "O"):
             raise Unsupported("a pointer used as an integer without a cast")
         return e if t == "Z" else "(if %s then 1 else 0)" % e
 
     def guard(self, name, env, what):
         lk = self.cfg.get("lock")
-        if lk and name in lk.get("guards", ()) and "#lock" not in env:
+        if not lk or name not in lk.get("guards", ()):
+            return
+        g = lk["guards"]
+        if isinstance(g, dict):
+            if "#lock[%s]" % g[name] not in env:
+                raise Unsupported("%s of '%s' while its lock %s is not held" % (what, name, g[name]))
+        elif "#lock" not in env:
             raise Unsupported("%s of '%s' outside the critical section" % (what, name))
+
+    @staticmethod
+    def held(env):
+        """the locks held on this path: [""] for the single lock, ["[ULOCK]", ..] for indexed ones"""
+        return [x[len("#lock"):] for x in env if x.startswith("#lock")]
+
+    def path(self, n, env):
+        """object path "root->f->g" of a pointer-valued expression (cfg "roots"), or None"""
+        if not self.cfg.get("roots"):
+            return None
+        n = strip(n)
+        if n.get("kind") == "DeclRefExpr":
+            nm = n["referencedDecl"]["name"]
+            if env is not None and nm in env and env[nm][1] == "O":
+                return env[nm][0]
+            if nm in self.cfg["roots"] and n["referencedDecl"].get("kind") == "ParmVarDecl" and (env is None or nm not in env):
+                return nm
+            return None
+        if n.get("kind") == "MemberExpr" and n.get("isArrow"):
+            b = self.path(n["inner"][0], env)
+            return None if b is None else "%s->%s" % (b, n["name"])
+        return None
+
+    def elem(self, n, env):
+        """(array path, index node) of `a[i]` with a an array of cfg "parrays", or None"""
+        n = strip(n)
+        if n.get("kind") != "ArraySubscriptExpr":
+            return None
+        p = self.path(n["inner"][0], env)
+        if p is not None and p in self.cfg.get("parrays", ()):
+            return (p, n["inner"][1])
+        return None
+
+    def is_ptr(self, n):
+        return n.get("type", {}).get("desugaredQualType", n.get("type", {}).get("qualType", "")).rstrip().endswith("*")
 
     def gcell(self, n):
         """cell name "g.f" of a MemberExpr `g.f` on a declared global struct variable, or None"""
@@ -250,6 +317,15 @@ class Tr:
             return self.var(rd["name"], env)
         if k == "MemberExpr" and self.gcell(n):
             return self.var(self.gcell(n), env)
+        if k == "MemberExpr" and self.path(n, env) is not None:
+            p = self.path(n, env)
+            if p in self.cfg.get("pcells", ()):
+                return self.var(p, env)
+            raise Unsupported("read of '%s', which is not a declared cell" % p)
+        if k == "ArraySubscriptExpr" and self.elem(n, env):
+            p, idx = self.elem(n, env)
+            a = self.var(p, env)
+            return ("(%s %s)" % (a[0], self.toZ(self.ex(idx, env))), "Z")
         if k == "MemberExpr":
             base = strip(n["inner"][0])
             if base.get("kind") != "DeclRefExpr":
@@ -337,8 +413,8 @@ class Tr:
         raise Unsupported("expression kind %s" % k)
 
     # ------------------------------------------------------------------ statements: analysis
-    def lhs_name(self, n):
-        """name of the translated variable an lvalue denotes, or None"""
+    def lhs_name(self, n, env=None):
+        """name of the translated variable an lvalue denotes, or None (an element `a[i]` of a mutable array denotes the array)"""
         n = strip(n)
         if n.get("kind") == "DeclRefExpr":
             return n["referencedDecl"]["name"]
@@ -346,7 +422,13 @@ class Tr:
             g = self.gcell(n)
             if g in self.cfg.get("base_ptr", {}):
                 raise Unsupported("assignment to the tracked base pointer '%s'" % g)
+            if g is None:
+                p = self.path(n, env)
+                if p is not None and p in self.cfg.get("pcells", ()):
+                    return p
             return g
+        if self.elem(n, env):
+            return self.elem(n, env)[0]
         if n.get("kind") == "UnaryOperator" and n["opcode"] == "*":
             b = strip(n["inner"][0])
             if b.get("kind") == "DeclRefExpr" and b["referencedDecl"]["name"] in self.cfg.get("cells", ()):
@@ -380,19 +462,23 @@ class Tr:
                 self.stores_in(c, acc)
         return acc
 
-    def assigned(self, n, acc):
+    def assigned(self, n, acc, env=None):
         k = n.get("kind")
+        if k in ("SwitchStmt", "BreakStmt"):
+            raise Unsupported("switch / break inside an if or a loop that is translated as a join (use dup_ifs)")
         if self.store_target(n):
             return
         if k in ("BinaryOperator", "CompoundAssignOperator") and (n["opcode"] == "=" or k == "CompoundAssignOperator"):
-            v = self.lhs_name(n["inner"][0])
+            v = self.lhs_name(n["inner"][0], env)
             if v is None:
                 raise Unsupported("assignment to something that is not a scalar variable or a declared cell")
+            if self.is_ptr(n["inner"][0]) and self.cfg.get("roots"):
+                raise Unsupported("assignment to the pointer '%s' inside an if / a loop that is translated as a join" % v)
             if v not in acc:
                 acc.append(v)
             return
         if k == "UnaryOperator" and n["opcode"] in ("++", "--"):
-            v = self.lhs_name(n["inner"][0])
+            v = self.lhs_name(n["inner"][0], env)
             if v is None:
                 raise Unsupported("++/-- of a non-variable")
             if v not in acc:
@@ -409,10 +495,15 @@ class Tr:
                 if c:
                     if k == "IfStmt" and c is n["inner"][0]:
                         continue
-                    self.assigned(c, acc)
+                    self.assigned(c, acc, env)
+
+    def callee(self, n):
+        return strip(n["inner"][0]).get("referencedDecl", {}).get("name") if n.get("kind") == "CallExpr" else None
 
     def may_return(self, n):
-        if n.get("kind") in ("ReturnStmt", "GotoStmt"):
+        if n.get("kind") in ("ReturnStmt", "GotoStmt", "BreakStmt", "SwitchStmt"):
+            return True
+        if n.get("kind") == "CallExpr" and self.callee(n) in self.cfg.get("abort_calls", ()):
             return True
         return any(self.may_return(c) for c in n.get("inner", []) if c)
 
@@ -445,8 +536,26 @@ class Tr:
             return k(env)
         for j, s in enumerate(stmts):
             if s.get("kind") == "LabelStmt":
-                self.labels[s.get("declId")] = (lambda j: lambda e: self.seq(stmts[j:], e, k))(j)
+                self.labels[s.get("declId")] = self.with_brk(self.brk, (lambda j: lambda e: self.seq(stmts[j:], e, k))(j))
         return self.stmt(stmts[0], env, lambda e: self.seq(stmts[1:], e, k))
+
+    def with_brk(self, brk, k):
+        """the continuation k, run with `brk` as the target of break (whatever the target is where k gets called)"""
+        def kk(e):
+            saved, self.brk = self.brk, brk
+            try:
+                return k(e)
+            finally:
+                self.brk = saved
+        return kk
+
+    def elem_assign(self, l, val_of, env, k):
+        """a[i] = val_of(old element) for an element of a mutable array"""
+        p, idx = self.elem(l, env)
+        a = self.var(p, env)
+        i = self.toZ(self.ex(idx, env))
+        v = val_of("(%s %s)" % (a[0], i))
+        return self.assign(p, ("(zupd %s %s %s)" % (a[0], i, v), "F"), env, k)
 
     def number(self, n):
         """preorder positions of the goto and label statements of a function body"""
@@ -463,6 +572,30 @@ class Tr:
         lk = self.cfg.get("lock")
         if not lk or name not in (set(lk.get("acquire", ())) | set(lk.get("release", ()))):
             return None
+        if lk.get("object_path"):
+            args = n["inner"][1:]
+            a = strip(args[0]) if len(args) == 1 else {}
+            m = strip(a["inner"][0]) if a.get("kind") == "UnaryOperator" and a.get("opcode") == "&" else {}
+            ix = strip(m["inner"][1]) if m.get("kind") == "ArraySubscriptExpr" else {}
+            if m.get("kind") != "ArraySubscriptExpr" or self.path(m["inner"][0], env) != lk["object_path"]:
+                raise Unsupported("%s on something that is not &%s[..]" % (name, lk["object_path"]))
+            if ix.get("kind") == "DeclRefExpr" and ix["referencedDecl"].get("kind") == "EnumConstantDecl":
+                lid = ix["referencedDecl"]["name"]
+            elif ix.get("kind") == "IntegerLiteral":
+                lid = ix["value"]
+            else:
+                raise Unsupported("%s on %s[..] with an index that is not a constant" % (name, lk["object_path"]))
+            key = "#lock[%s]" % lid
+            env2 = dict(env)
+            if name in lk.get("acquire", ()):
+                if self.held(env):
+                    raise Unsupported("%s of %s while a lock is held (%s)" % (name, lid, ", ".join(self.held(env))))
+                env2[key] = ("true", "B")
+            else:
+                if key not in env:
+                    raise Unsupported("%s of %s while it is not held" % (name, lid))
+                del env2[key]
+            return env2
         obj = lk.get("object")
         if obj:
             args = n["inner"][1:]
@@ -481,6 +614,64 @@ class Tr:
                 raise Unsupported("%s while the lock is not held" % name)
             del env2["#lock"]
         return env2
+
+    def switch(self, n, env, k):
+        """switch (e) { case A: case B: s.. break; .. default: .. }  ==>  if (e =? A) || (e =? B) then <path from there> else ..
+        every entry point carries its own copy of the rest of the path (statements up to a break / the end, then k)"""
+        inner = [c for c in n.get("inner", []) if c]
+        if len(inner) != 2 or inner[1].get("kind") != "CompoundStmt":
+            raise Unsupported("switch that is not `switch (e) { .. }`")
+        if not self.pure(inner[0]):
+            raise Unsupported("switch on an expression with a side effect")
+        sel = self.toZ(self.ex(inner[0], env))
+        items = []                      # (labels, statement); a label is a Gallina term or None for default
+        for it in inner[1].get("inner", []):
+            labs = []
+            while it.get("kind") in ("CaseStmt", "DefaultStmt"):
+                sub = [c for c in it.get("inner", []) if c]
+                if it["kind"] == "CaseStmt":
+                    if len(sub) != 2:
+                        raise Unsupported("case range")
+                    labs.append(self.toZ(self.ex(sub[0], env)))
+                else:
+                    if len(sub) != 1:
+                        raise Unsupported("default label")
+                    labs.append(None)
+                it = sub[-1]
+            if mentions(it, lambda x: x.get("kind") in ("CaseStmt", "DefaultStmt")) and it.get("kind") != "SwitchStmt":
+                raise Unsupported("case label inside a nested statement")
+            items.append((labs, it))
+        if items and not items[0][0]:
+            raise Unsupported("statement before the first case label of a switch")
+        stmts = [it for (_, it) in items]
+        kk = self.with_brk(self.brk, k)          # after the switch the outer break target is back
+        d0, dall = set(self.dirty), set()
+        saved, self.brk = self.brk, kk
+        try:
+            chain, dflt = [], None
+            for j, (labs, _) in enumerate(items):
+                if not labs:
+                    continue
+                self.dirty = set(d0)
+                t = self.seq(stmts[j:], env, kk)
+                dall |= self.dirty
+                if None in labs:
+                    dflt = t
+                tests = [l for l in labs if l is not None]
+                if tests:
+                    chain.append(("(" + " || ".join("(%s =? %s)" % (sel, l) for l in tests) + ")" if len(tests) > 1
+                                  else "(%s =? %s)" % (sel, tests[0]), t))
+            if dflt is None:
+                self.dirty = set(d0)
+                dflt = kk(env)
+                dall |= self.dirty
+        finally:
+            self.brk = saved
+        self.dirty = dall | d0
+        out = dflt
+        for c, t in reversed(chain):
+            out = "(if %s\n then %s\n else %s)" % (c, t, out)
+        return out
 
     def stmt(self, n, env, k):
         kind = n.get("kind")
@@ -501,6 +692,10 @@ class Tr:
                     b = strip(strip(d["inner"][0])["inner"][0])
                     self.alias[d["name"]] = self.alias.get(b["referencedDecl"]["name"], b["referencedDecl"]["name"])
                     return go(i + 1, e)
+                if self.is_ptr(d) and self.path(d["inner"][0], e) is not None:
+                    e2 = dict(e)
+                    e2[d["name"]] = (self.path(d["inner"][0], e), "O")
+                    return go(i + 1, e2)
                 return self.assign(d["name"], self.ex(d["inner"][0], e), e, lambda e2: go(i + 1, e2))
             return go(0, env)
         if kind == "BinaryOperator" and n["opcode"] == "=":
@@ -510,9 +705,16 @@ class Tr:
                     raise Unsupported("dropped store to '%s' has a side effect in its index or value" % st)
                 self.dirty.add(st)
                 return k(env)
-            v = self.lhs_name(n["inner"][0])
+            if self.elem(n["inner"][0], env):
+                val = self.toZ(self.ex(n["inner"][1], env))
+                return self.elem_assign(n["inner"][0], lambda old: val, env, k)
+            v = self.lhs_name(n["inner"][0], env)
             if v is None:
                 raise Unsupported("assignment to something that is not a scalar variable or a declared cell")
+            if strip(n["inner"][0]).get("kind") == "DeclRefExpr" and self.is_ptr(n["inner"][0]) and self.path(n["inner"][1], env) is not None:
+                e2 = dict(env)
+                e2[v] = (self.path(n["inner"][1], env), "O")
+                return k(e2)
             if v in self.cfg.get("override", {}):
                 if not self.pure(n["inner"][1]):
                     raise Unsupported("overridden assignment to '%s' has a side effect" % v)
@@ -524,13 +726,20 @@ class Tr:
                 return k(env)
             return self.assign(v, self.ex(n["inner"][1], env), env, k)
         if kind == "CompoundAssignOperator":
-            v = self.lhs_name(n["inner"][0])
+            v = self.lhs_name(n["inner"][0], env)
             op = n["opcode"][:-1]
             if v is None or op not in "+-*":
                 raise Unsupported("compound assignment %s" % n["opcode"])
+            if self.elem(n["inner"][0], env):
+                val = self.toZ(self.ex(n["inner"][1], env))
+                return self.elem_assign(n["inner"][0], lambda old: "(%s %s %s)" % (old, op, val), env, k)
             return self.assign(v, ("(%s %s %s)" % (self.toZ(self.var(v, env)), op, self.toZ(self.ex(n["inner"][1], env))), "Z"), env, k)
         if kind == "UnaryOperator" and n["opcode"] in ("++", "--"):
-            v = self.lhs_name(n["inner"][0])
+            v = self.lhs_name(n["inner"][0], env)
+            if self.elem(n["inner"][0], env):
+                return self.elem_assign(n["inner"][0], lambda old: "(%s %s 1)" % (old, "+" if n["opcode"] == "++" else "-"), env, k)
+            if v is None:
+                raise Unsupported("++/-- of something that is not a scalar variable or a declared cell")
             return self.assign(v, ("(%s %s 1)" % (self.toZ(self.var(v, env)), "+" if n["opcode"] == "++" else "-"), "Z"), env, k)
         if kind == "CallExpr":
             cal = strip(n["inner"][0])
@@ -538,7 +747,13 @@ class Tr:
             e2 = self.lock_call(name, n, env)
             if e2 is not None:
                 return k(e2)
+            if name in self.cfg.get("abort_calls", ()):
+                if "on_abort" not in self.cfg:
+                    raise Unsupported("call of '%s' (never returns) and no on_abort" % name)
+                return self.cfg["on_abort"](self, env)
             if name in self.cfg.get("ignore_calls", ()):
+                if not all(self.pure(a) for a in n["inner"][1:]):
+                    raise Unsupported("ignored call of '%s' has a side effect in an argument" % name)
                 return k(env)
             raise Unsupported("call statement of '%s' (not on the ignore list)" % name)
         if kind == "ReturnStmt":
@@ -555,6 +770,12 @@ class Tr:
             if tgt not in self.labels:
                 raise Unsupported("goto into a block that does not enclose it")
             return self.labels[tgt](env)
+        if kind == "BreakStmt":
+            if self.brk is None:
+                raise Unsupported("break outside a switch (break in a loop is not translated)")
+            return self.brk(env)
+        if kind == "SwitchStmt":
+            return self.switch(n, env, k)
         if kind == "IfStmt":
             inner = n["inner"]
             c = self.toB(self.ex(inner[0], env))
@@ -570,8 +791,8 @@ class Tr:
                 self.dirty |= d1
                 return "(if %s\n then %s\n else %s)" % (c, t1, t2)
             vs = []
-            self.assigned(th, vs)
-            self.assigned(el, vs)
+            self.assigned(th, vs, env)
+            self.assigned(el, vs, env)
             loc = [v for v in vs if v not in env]
             if loc and not self.cfg.get("local_temps"):
                 raise Unsupported("variable '%s' is assigned in one branch of an if without a value before it" % loc[0])
@@ -612,7 +833,7 @@ class Tr:
             if not (ic.get("kind") == "UnaryOperator" and ic["opcode"] == "++" and self.lhs_name(ic["inner"][0]) == iv):
                 raise Unsupported("for-loop increment is not ++i / i++")
             vs = []
-            self.assigned(body, vs)
+            self.assigned(body, vs, env)
             if iv in vs:
                 raise Unsupported("for-loop body assigns the loop variable")
             loc = [v for v in vs if v not in env]
@@ -628,7 +849,11 @@ class Tr:
             for v, nm in zip(vs, stn):
                 envb[v] = (nm, env[v][1])
             fin = lambda e: self.tup([e[v][0] if e[v][1] == env[v][1] else (self.toZ(e[v]) if env[v][1] == "Z" else self.toB(e[v])) for v in vs])
-            bodyt = self.stmt(body, envb, fin)
+            saved, self.brk = self.brk, None
+            try:
+                bodyt = self.stmt(body, envb, fin)
+            finally:
+                self.brk = saved
             news = [self.fresh(v.replace("*", "").replace(".", "_"), env[v][1]) for v in vs]
             env2 = dict(env)
             for v, nm in zip(vs, news):
